@@ -44,6 +44,15 @@ def check_read_to_value(ctx, rule):
         v = o["inner"]
         det["ok_value"] = show(v)
         val_ok = v[0] == "tryok" and is_call(v[1]) and v[1][1].startswith("ciborium::") and v[1][2][0] == ("ref", ("param", 0), True)
+        if val_ok and len(v[1][2]) > 1:
+            # from_reader_with_recursion_limit(reader, limit): the byte level agrees with ciborium's own parse (what a caller of
+            # the Value level API uses) only if the limit is ciborium's default
+            from lib.prov import resolve_consts
+            lim = resolve_consts(prog, v[1][2][1])
+            while lim[0] == "cast":
+                lim = lim[2]
+            val_ok = v[1][1].endswith("from_reader_with_recursion_limit") and len(v[1][2]) == 2 and lim == ("const", 256)
+            det["recursion_limit"] = show(lim)
         conds = [normalize_bool_cond(c) for c in o["conds"]]
         det["ok_conditions"] = [(show(c[0]), c[1]) for c in conds if c]
         guard_ok = False
